@@ -58,13 +58,17 @@ _S = {}
 
 def _variant(version, abstract):
     """the element 'abstract' flags feed state derived at build time (XsdElement.substitutes), so they are varied through
-    the schema TEXT (one build per variant, outside the tracer), not by overwriting live components"""
+    the schema TEXT (one build per variant, outside the tracer), not by overwriting live components.
+    The schema blocks everything by default (blockDefault="#all") and every global element and named type lifts the block
+    with an explicit block="": the effective values are empty, as without the default, but the explicit empty value has to
+    win over the schema default (missed seed of round 4)."""
     key = (version, tuple(sorted(abstract)))
     if key not in _S:
         cls = xmlschema.XMLSchema10 if version == "1.0" else xmlschema.XMLSchema11
-        text = _XSD
+        text = _XSD.replace('<xs:schema xmlns:xs="http://www.w3.org/2001/XMLSchema">', '<xs:schema xmlns:xs="http://www.w3.org/2001/XMLSchema" blockDefault="#all">', 1)
+        text = text.replace('\n  <xs:element name=', '\n  <xs:element block="" name=').replace('\n  <xs:complexType name=', '\n  <xs:complexType block="" name=')
         for name in abstract:
-            text = text.replace('<xs:element name="%s" ' % name, '<xs:element name="%s" abstract="true" ' % name)
+            text = text.replace('<xs:element block="" name="%s" ' % name, '<xs:element block="" name="%s" abstract="true" ' % name)
         s = cls(text)
         s.maps.cache.enabled = False
         _S[key] = s
@@ -95,7 +99,7 @@ def _fill(elem, ci):
 
 def pre_idx(fn, **kw):
     lim = {"eb": len(EBLOCKS), "tb": len(BLOCKS), "xt": len(XSITYPES), "ct": len(CONTENTS), "ab": 6, "mb": len(MEMBERS), "hab": 2, "mab": 2,
-           "nil": 5, "txt": 5, "el": 3, "kk": 4, "iab": 2}
+           "nil": 5, "txt": 5, "el": 3, "kk": 4, "iab": 2, "at": 5}
     for k, v in kw.items():
         if not (0 <= v < lim[k]):
             return False
@@ -212,6 +216,7 @@ _ALT_XSD = """<xs:schema xmlns:xs="http://www.w3.org/2001/XMLSchema">
   <xs:complexType name="B"><xs:sequence><xs:element name="x" type="xs:string" minOccurs="0"/></xs:sequence><xs:attribute name="k" type="xs:string"/></xs:complexType>
   <xs:complexType name="A1"><xs:complexContent><xs:extension base="B"><xs:sequence><xs:element name="y" type="xs:string"/></xs:sequence></xs:extension></xs:complexContent></xs:complexType>
   <xs:complexType name="A2"><xs:complexContent><xs:restriction base="B"><xs:sequence><xs:element name="x" type="xs:string"/></xs:sequence></xs:restriction></xs:complexContent></xs:complexType>
+  <xs:complexType name="A11"><xs:complexContent><xs:extension base="A1"><xs:sequence><xs:element name="z" type="xs:string" minOccurs="0"/></xs:sequence></xs:extension></xs:complexContent></xs:complexType>
   <xs:element name="a" type="B">
     <xs:alternative test="@k='a'" type="A1"/>
     <xs:alternative test="@k='a' or @k='b'" type="A2"/>
@@ -220,26 +225,77 @@ _ALT = {}
 KS = [None, "a", "b", "c"]
 
 
+ATYPES = [None, "B", "A1", "A2", "A11"]
+A_PARENT = {"A1": "B", "A2": "B", "A11": "A1", "B": None}
+A_CONTENT_OK = {"B": (0, 1), "A1": (2,), "A2": (1,), "A11": (2, 3)}
+
+
 def h_alt(**kw) -> bool:
-    """the FIRST alternative whose test holds selects the governing type (k='a' -> A1 although the second test holds too)"""
+    """the FIRST alternative whose test holds selects the governing type (k='a' -> A1 although the second test holds too);
+    an xsi:type on the instance must be validly derived from the SELECTED type (Structures 1.1, 3.3.4.3 clause 4) and
+    then governs"""
     if "s" not in _ALT:
         raise RuntimeError("alternative schema not built")
     s = _ALT["s"]
     k = KS[pick(_a(kw, 'kk'), len(KS))]
     ci = pick(_a(kw, 'ct'), len(CONTENTS))
-    if ci > 2:
-        return True
+    xt = ATYPES[pick(_a(kw, 'at'), len(ATYPES))]
     root = ET.Element('a')
     if k is not None:
         root.set('k', k)
+    if xt is not None:
+        root.set(XSI + 'type', xt)
     _fill(root, ci)
     errors = list(s.iter_errors(root))
     gov = {"a": "A1", "b": "A2"}.get(k, "B")
-    ok = {"B": {0: True, 1: True, 2: False}, "A1": {0: False, 1: False, 2: True}, "A2": {0: False, 1: True, 2: False}}[gov][ci]
-    return (not errors) == ok
+    if xt is not None:
+        t = xt
+        while t is not None and t != gov:
+            t = A_PARENT[t]
+        if t is None:
+            return bool(errors)          # the named type is not derived from the selected type
+        gov = xt
+    return (not errors) == (ci in A_CONTENT_OK[gov])
+
+
+# ---------------------------------------------------------------- xsi:type on a simple-typed element with block
+_SB_XSD = """<xs:schema xmlns:xs="http://www.w3.org/2001/XMLSchema">
+<xs:simpleType name="R"><xs:restriction base="xs:integer"><xs:maxInclusive value="9"/></xs:restriction></xs:simpleType>
+<xs:complexType name="CE"><xs:simpleContent><xs:extension base="xs:decimal"><xs:attribute name="u"/></xs:extension></xs:simpleContent></xs:complexType>
+<xs:element name="e" type="xs:decimal" block="%s"/></xs:schema>"""
+SB_TYPES = [("xs:integer", ["restriction"]), ("xs:long", ["restriction"]), ("R", ["restriction"]), ("CE", ["extension"]), ("xs:decimal", []), ("xs:string", None)]
+_SB = {}
+
+
+def _sb_schema(version, bi):
+    key = (version, bi)
+    if key not in _SB:
+        cls = xmlschema.XMLSchema10 if version == "1.0" else xmlschema.XMLSchema11
+        _SB[key] = cls(_SB_XSD % BLOCKS[bi])
+    return _SB[key]
+
+
+def pre_sb(fn, st):
+    return 0 <= st < len(SB_TYPES)
+
+
+def h_simple_block(st: int) -> bool:
+    """built-in and user simple types named by xsi:type on a decimal element: refused exactly when the type is not derived
+    from xs:decimal or a derivation method on its chain is blocked (built-in types derive by restriction)"""
+    name, chain = SB_TYPES[pick(st, len(SB_TYPES))]
+    s = _sb_schema(CFG["version"], CFG["sb"])
+    root = ET.Element('e', {XSI + 'type': name})
+    root.text = '1'
+    errors = list(s.iter_errors(root, namespaces={'xs': 'http://www.w3.org/2001/XMLSchema'}))
+    if chain is None:
+        return bool(errors)
+    blocked = any(m in BLOCKS[CFG["sb"]].split() for m in chain)
+    return bool(errors) == blocked
 
 
 def explain(fn, args):
+    if fn == "h_simple_block":
+        return "XSD %s element of type xs:decimal with block=%r, xsi:type=%s" % (CFG["version"], BLOCKS[CFG["sb"]], SB_TYPES[args["st"]][0])
     return "XSD %s %s args %r (blocks %r, xsi types %r, members %r, contents %r)" % (CFG["version"], fn, args, EBLOCKS, XSITYPES, MEMBERS, CONTENTS)
 
 
@@ -248,6 +304,8 @@ _orig_configure = configure
 
 def configure(cfg):          # noqa: F811
     _orig_configure(cfg)
+    if "sb" in cfg:
+        _sb_schema(CFG["version"], CFG["sb"])
     if "s" not in _ALT:
         _ALT["s"] = xmlschema.XMLSchema11(_ALT_XSD)
 
@@ -290,6 +348,11 @@ def obligations(tier, seed):
                             "bound": "type block x 5 members (one level, two levels) x 4 contents; abstract elements %r set in the schema text" % (abstract,)})
         out.append({"name": "nil-fixed/%s" % version, "fn": "h_nil_fixed", "pre": "pre_idx", "args": [["el", "int"], ["nil", "int"], ["txt", "int"]],
                     "config": {"version": version}, "timeout": 400, "twin_timeout": 30, "bound": "3 elements x 5 xsi:nil values x 5 contents"})
-    out.append({"name": "alternatives/1.1", "fn": "h_alt", "pre": "pre_idx", "args": [["kk", "int"], ["ct", "int"]],
-                "config": {"version": "1.1"}, "timeout": 300, "twin_timeout": 30, "bound": "4 attribute values x 3 contents"})
+    for version in ("1.0", "1.1"):
+        for bi in range(len(BLOCKS)):
+            out.append({"name": "simple-block/%s/%s" % (version, BLOCKS[bi].replace(' ', '+') or 'none'), "fn": "h_simple_block", "pre": "pre_sb", "args": [["st", "int"]],
+                        "config": {"version": version, "sb": bi}, "timeout": 200, "twin_timeout": 30,
+                        "bound": "xsi:type from %r on an element of type xs:decimal" % ([t for t, c in SB_TYPES],)})
+    out.append({"name": "alternatives/1.1", "fn": "h_alt", "pre": "pre_idx", "args": [["kk", "int"], ["ct", "int"], ["at", "int"]],
+                "config": {"version": "1.1"}, "timeout": 300, "twin_timeout": 30, "bound": "4 attribute values x 4 contents x 5 xsi:type choices"})
     return out
